@@ -166,15 +166,31 @@ NULLARY = ['get_components', 'delete', 'ref-set-sub', 'proc-set-sub']
 PROC_OPS = ['proc-get', 'proc-set', 'proc-del']
 
 
-def h_twin(sp, steps=1, second_types=3):
+DIRECT = ['direct-remove-PA', 'direct-remove-PB', 'direct-add-PA', 'direct-add-PB']
+
+
+def apply_direct(op, w, tag):
+    """an operation issued through the World itself, identically in both worlds (not through the shorthand)"""
+    if op == 'direct-remove-PA':
+        w.remove_processor(PA)
+    elif op == 'direct-remove-PB':
+        w.remove_processor(PB)
+    elif op == 'direct-add-PA':
+        w.add_processor(PA(tag=tag))
+    elif op == 'direct-add-PB':
+        w.add_processor(PB(tag=tag))
+
+
+def h_twin(sp, steps=1, second_types=3, focus=None):
     bits = {}
     for e in IDS:
         for T in (TYPES if e == IDS[0] else TYPES[:second_types]):
-            bits[e, T] = bool(sp.flag('has[%d,%s]' % (e, T.__name__)))
-    dead = [any(b for (e2, _), b in bits.items() if e2 == e) and bool(sp.flag('dead%d' % e)) for e in IDS]
+            bits[e, T] = bool(sp.flag('has[%d,%s]' % (e, T.__name__))) if focus is None else False
+    dead = [focus is None and any(b for (e2, _), b in bits.items() if e2 == e) and bool(sp.flag('dead%d' % e))
+            for e in IDS]
     procs = [bool(sp.flag('proc%d' % i)) for i in range(2)]
-    ce = sp.pick(IDS, 'controller-entity')
-    detached = bool(sp.flag('controller-detached'))
+    ce = sp.pick(IDS, 'controller-entity') if focus is None else IDS[0]
+    detached = bool(sp.flag('controller-detached')) if focus is None else False
     if detached:
         sp.cover('detached-controller')
         if not any(b for (e2, _), b in bits.items() if e2 == ce):
@@ -188,7 +204,15 @@ def h_twin(sp, steps=1, second_types=3):
              'controller.entity=%r world ok=%s, real owner %r' % (c2.entity, c2.world is w2, ce))
     sp.check(snapshot(w1) == snapshot(w2), 'twin-build', 'twin worlds differ after building')
     for step in range(steps):
-        kind = sp.choose(3, 'kind%d' % step)
+        kind = sp.choose(3, 'kind%d' % step) if focus is None else 2 + sp.choose(2, 'kind%d' % step)
+        if kind == 3:
+            op = sp.pick(DIRECT, 'op%d' % step)
+            sp.note('%s (plain World call in both worlds)' % op)
+            apply_direct(op, w1, 'd%d' % step)
+            apply_direct(op, w2, 'd%d' % step)
+            sp.cover('direct-world-op')
+            sp.check(snapshot(w1) == snapshot(w2), 'effect', 'worlds differ after the same direct World call')
+            continue
         if kind == 0:
             op = sp.pick(COMP_OPS, 'op%d' % step)
             T = sp.pick(TYPES, 't%d' % step)
@@ -386,8 +410,10 @@ HARNESSES = {
     'update': dict(fn=h_update, nontrivial=['relayed'], required=['relayed'], split=False),
 }
 TIERS = {
-    'quick': [('twin', dict(steps=1, second_types=1)), ('proto', dict(n_types=2)), ('update', dict())],
-    'thorough': [('twin', dict(steps=2)), ('proto', dict(n_types=3)), ('update', dict(max_listeners=4, frames=3))],
+    'quick': [('twin', dict(steps=1, second_types=1)),
+              ('twin', dict(steps=3, focus='procs'), dict(required=PROC_OPS + ['direct-world-op'])),
+              ('proto', dict(n_types=2)), ('update', dict())],
+    'thorough': [('twin', dict(steps=2)), ('twin', dict(steps=4, focus='procs'), dict(required=PROC_OPS + ['direct-world-op'])), ('proto', dict(n_types=3)), ('update', dict(max_listeners=4, frames=3))],
 }
 BUDGET_S = {'quick': 150, 'thorough': 1500}
 EXPLANATION = (
